@@ -29,6 +29,12 @@ PID = "C07"
 PROOF_FILES = ["theories/Props/C07.v", "theories/Proofs/Epa.v", "theories/Checker/Pen.v", "theories/Checker/Narrow.v",
                "theories/Checker/Shapes.v", "theories/Spec/Convex.v"]
 KINDS_POLY = ["box", "hull", "mesh"]
+# arms of gjk's exit / epa.py observed by the worker (harness/impl/narrowp.py)
+ALL_ARMS = ["gjk_exit_n_points_1", "gjk_exit_n_points_2", "gjk_exit_n_points_3", "gjk_exit_n_points_4",
+            "simplex_winding_pos", "simplex_winding_neg", "simplex_winding_flat", "closest_dist_negative",
+            "winding_kept", "winding_flipped", "degenerate_face_skipped", "faces_added",
+            "loose_edges_3", "loose_edges_gt3", "loose_edges_lt3", "loose_edge_overflow",
+            "face_removed_last", "face_removed_swap", "edge_shared", "edge_not_shared", "iterations"]
 MAX_TREE_NODES = dict(quick=600, thorough=3000)
 CAP_WHAT = ("epa() with its default capacities (max_faces=64) raises AssertionError in Polytope.extend_with_point on an "
             "overlapping pair of polytopes with at most 30 vertices each")
@@ -196,7 +202,7 @@ def run(tier, seed, replay=None):
         if corpus.exists():
             for f in sorted(corpus.glob("*.json")):
                 cases.append(json.loads(f.read_text())["case"])
-        n = 200 if tier == "quick" else 2000
+        n = 200 if tier == "quick" else 1400
         seeds = [(R.rng.getrandbits(64), tier, k) for k in range(n)]
         cases += npn.par_map(PID, "c07", "make_case_seeded", seeds, tag="gen")
     for c in cases:
@@ -400,6 +406,7 @@ def run(tier, seed, replay=None):
     R.cov["outcomes"] = outcome
     R.cov["verdicts"] = stats
     R.cov["arms"] = dict(sorted(arms.items()))
+    R.cov["arms_not_reached"] = [a for a in ALL_ARMS if a not in arms]
     R.cov["f2_cases_gjk_exit_with_fewer_than_4_points"] = len(f2_cases)
     R.cov["capacity_cases_rerun_with_enlarged_limits"] = len(cap_cases)
     if tree_nodes:
